@@ -50,6 +50,15 @@ func RunOracles(prop string, cases []GenCase, impl map[string]map[string]string)
 			if kv["prep"] != "ok" || kv["r0"] != want {
 				viol(gc, "string-literal-value", fmt.Sprintf("want r0=%s got prep=%s r0=%s", want, kv["prep"], kv["r0"]))
 			}
+		case strings.HasPrefix(gc.Role, "trace:"):
+			parts := strings.SplitN(strings.TrimPrefix(gc.Role, "trace:"), ":", 2)
+			wantO, wantR := parts[0], ""
+			if len(parts) > 1 {
+				wantR = parts[1]
+			}
+			if kv["prep"] != "ok" || kv["o0"] != wantO || (wantR != "" && kv["r0"] != wantR) {
+				viol(gc, "control-flow-trace", fmt.Sprintf("want calls=%s result=%s; got prep=%s calls=%s result=%s", wantO, wantR, kv["prep"], kv["o0"], kv["r0"]))
+			}
 		case gc.Role == "history":
 			for _, rk := range runKeys(kv, "r") {
 				i := rk[1:]
